@@ -21,7 +21,7 @@ from .. import clifacts
 from .. import inline
 from ..facts import UNKNOWN, call_name, dotted, norm
 from ..linters import Linters, leaf_exprs
-from ..util import handlers_covering, handler_names
+from ..util import is_call_named, handlers_covering, handler_names
 
 CLI_UTILS = "src.core.cli_utils"
 SARIF = "src.formatters.sarif.SarifFormatter"
@@ -212,6 +212,52 @@ def check(run, ctx):
             run.ok(X5, sym, "file_path: str")
         else:
             run.finding(X5, sym, f"file_path-type:{t}", f"file_path has static type {t}; SARIF would emit a non-string uri / json.dumps would fail", loc)
+
+    X7 = run.rule("X7", "a missing target ends the run with exit 2 whenever ANY given path is missing (per-path test or `not all(...)`), and SARIF shows the same file path as text and JSON (no rewriting of the path)", floor=2,
+                  decides="`thailint X ok.py missing.py` exits 2 like `thailint X missing.py`; a violation is attributed to the same file in every format")
+    vp = repo.func("src.cli.utils.validate_paths_exist")
+    ppar = vp.node.args.args[0].arg
+    verdict = None
+    for n in ast.walk(vp.node):
+        # for p in paths: if not p.exists(): ... exit(2)
+        if isinstance(n, ast.For) and ast.unparse(n.iter) == ppar:
+            for i_ in [x for x in ast.walk(n) if isinstance(x, ast.If)]:
+                t_ = i_.test
+                if isinstance(t_, ast.UnaryOp) and isinstance(t_.op, ast.Not) and is_call_named(t_.operand, "exists") and any(isinstance(c_, ast.Call) and dotted(c_.func) == "sys.exit" for b_ in i_.body for c_ in ast.walk(b_)):
+                    verdict = "per-path loop"
+        # if not all(p.exists() for p in paths): / if any(not p.exists() ...):
+        if isinstance(n, ast.If) and any(isinstance(c_, ast.Call) and dotted(c_.func) == "sys.exit" for b_ in n.body for c_ in ast.walk(b_)):
+            t_ = n.test
+            neg = isinstance(t_, ast.UnaryOp) and isinstance(t_.op, ast.Not)
+            inner = t_.operand if neg else t_
+            if isinstance(inner, ast.Call) and call_name(inner) in ("all", "any") and inner.args and isinstance(inner.args[0], (ast.GeneratorExp, ast.ListComp)):
+                elt = inner.args[0].elt
+                elt_neg = isinstance(elt, ast.UnaryOp) and isinstance(elt.op, ast.Not)
+                core = elt.operand if elt_neg else elt
+                if is_call_named(core, "exists"):
+                    good = (call_name(inner) == "all" and neg and not elt_neg) or (call_name(inner) == "any" and not neg and elt_neg)
+                    verdict = "quantified test" if good else f"WRONG:{norm(t_)}"
+    if verdict and not verdict.startswith("WRONG"):
+        run.ok(X7, "validate_paths_exist", f"exit 2 as soon as one path is missing ({verdict})")
+    elif verdict:
+        run.finding(X7, "validate_paths_exist", f"missing-path-quantifier:{verdict[6:]}", f"`{verdict[6:]}` is true only when every given path is missing: with one existing and one missing target the missing one is silently dropped and the run exits 0/1 instead of 2", vp.loc)
+    else:
+        run.undecided(X7, "validate_paths_exist", "existence test not recognised")
+    uri = None
+    for d in ast.walk(cl.node):
+        if isinstance(d, ast.Dict):
+            for k, v in zip(d.keys, d.values):
+                if isinstance(k, ast.Constant) and k.value == "uri":
+                    uri = v
+    run.require(uri is not None, "SarifFormatter._create_location: no 'uri' entry")
+    calls = [call_name(x) for x in ast.walk(uri) if isinstance(x, ast.Call)]
+    other = [c_ for c_ in calls if c_ not in ("str", "_sanitize_string", "fspath", "as_posix")]
+    if ast.unparse(uri).replace("str(", "").rstrip(")").endswith("file_path") and not other:
+        run.ok(X7, "SARIF artifact uri", f"{norm(uri)}: the violation's file path as it is")
+    elif other:
+        run.finding(X7, "SarifFormatter._create_location", f"uri-rewritten:{norm(uri)[:60]}", f"the SARIF artifact uri is `{norm(uri)}`: the path is rewritten ({other}) while text and JSON show it unchanged - for a name containing the rewritten character the three renderings name different files", cl.loc)
+    else:
+        run.undecided(X7, "SARIF artifact uri", f"form not recognised: {norm(uri)}")
 
     X6 = run.rule("X6", "JSON and text sanitise file_path and message; JSON and SARIF are emitted via json.dumps with ensure_ascii left on", floor=4)
     for fn in ("_output_json", "_print_violation"):
